@@ -31,17 +31,19 @@ type nnode struct {
 }
 
 type c18state struct {
-	rt      *rapid.T
-	w       *hlsim.World
-	c       *hlsim.Conn
-	root    *nnode
-	history []string
-	posts   int
-	deletes int
-	nt      bool
-	names   int
-	poster  string
-	ev      *evid.Rec
+	rt         *rapid.T
+	w          *hlsim.World
+	c          *hlsim.Conn
+	root       *nnode
+	history    []string
+	posts      int
+	deletes    int
+	stale      int
+	reconnects int
+	nt         bool
+	names      int
+	poster     string
+	ev         *evid.Rec
 }
 
 func (s *c18state) h() string { return "\nhistory: " + strings.Join(s.history, " | ") }
@@ -365,6 +367,64 @@ func c18prop(ev *evid.Rec) func(rt *rapid.T) {
 					}
 					delete(s.node(p[:len(p)-1]).kids, p[len(p)-1])
 					s.deletes++
+				},
+				"stalePath": func(rt *rapid.T) {
+					// a request whose path has a component that does not exist (a stale path through something another
+					// client just deleted): it must not show, change or remove anything that lives elsewhere
+					s.rt = rt
+					ps := s.paths(0)
+					if len(ps) == 0 {
+						rt.Skip()
+					}
+					real := ps[rapid.IntRange(0, len(ps)-1).Draw(rt, "real")]
+					cut := rapid.IntRange(0, len(real)-1).Draw(rt, "insertAt")
+					stale := append(append(append([]string{}, real[:cut]...), "No Such Place"), real[cut:]...)
+					if rapid.Bool().Draw(rt, "tailOnly") {
+						stale = append(append([]string{}, real[:cut]...), "No Such Place", real[len(real)-1])
+					}
+					op := rapid.SampledFrom([]string{"list-categories", "list-articles", "get-article", "post", "delete-article", "delete-item", "new-category", "new-bundle"}).Draw(rt, "op")
+					rec("stale-path %s %v", op, stale)
+					switch op {
+					case "list-categories":
+						if r := s.c.Request(hlref.TranGetNewsCatNameList, newsPath(stale)); okReply(r) && len(r.GetAll(hlref.FNewsCatListData15)) != 0 {
+							s.fail("category listing of the non-existent path %v shows %d entries", stale, len(r.GetAll(hlref.FNewsCatListData15)))
+						}
+					case "list-articles":
+						if r := s.c.Request(hlref.TranGetNewsArtNameList, newsPath(stale)); okReply(r) {
+							d, _ := r.Get(hlref.FNewsArtListData)
+							if _, _, _, es, err := hlref.DecodeNewsArtList(d); err == nil && len(es) != 0 {
+								s.fail("article list of the non-existent path %v shows %d articles", stale, len(es))
+							}
+						}
+					case "get-article":
+						if r := s.c.Request(hlref.TranGetNewsArtData, newsPath(stale), fld(hlref.FNewsArtID, hlref.BE32(1)), sfld(hlref.FNewsArtDataFlav, "text/plain")); okReply(r) {
+							if t, ok := r.Get(hlref.FNewsArtTitle); ok && len(t) > 0 {
+								s.fail("get-article on the non-existent path %v returned the article %q", stale, t)
+							}
+						}
+					case "post":
+						s.c.Request(hlref.TranPostNewsArt, newsPath(stale), fld(hlref.FNewsArtID, hlref.BE32(0)), sfld(hlref.FNewsArtTitle, "stale post"), sfld(hlref.FNewsArtDataFlav, "text/plain"), sfld(hlref.FNewsArtData, "x"))
+					case "delete-article":
+						s.c.Request(hlref.TranDelNewsArt, newsPath(stale), fld(hlref.FNewsArtID, hlref.BE32(1)))
+					case "delete-item":
+						s.c.Request(hlref.TranDelNewsItem, newsPath(stale))
+					case "new-category":
+						s.c.Request(hlref.TranNewNewsCat, sfld(hlref.FNewsCatName, "stale cat"), newsPath(stale))
+					case "new-bundle":
+						s.c.Request(hlref.TranNewNewsFldr, sfld(hlref.FFileName, "stale bundle"), newsPath(stale))
+					}
+					settle(0)
+					s.c.TakeInbox()
+					s.stale++
+					if s.c.EOF() {
+						// the server may drop the connection that sent the request (C03 allows "answered or closed"); the user comes back
+						s.reconnects++
+						s.c = loginAs(rt, w, fmt.Sprintf("10.0.0.1:%d", 100+s.reconnects), "admin", "adminpw", "admin")
+						if s.poster != "admin" {
+							s.c.Request(hlref.TranSetClientUserInfo, sfld(hlref.FUserName, s.poster), fld(hlref.FUserIconID, hlref.BE16(1)))
+						}
+					}
+					// the invariant that follows compares the whole tree with the model, which did not change
 				},
 				"reload": func(rt *rapid.T) {
 					s.rt = rt
